@@ -12,6 +12,10 @@ CLAIMED = {
          "int(address/0x8000) float division modelled as Nat division (exact below 2^53)."),
 }
 
+CLAIMED["C06"] = ("full at token level", "6/C06", "Lean 4 proof by structural induction over expression trees (fused shunting-yard simulation + pending-operator invariant), operator table regenerated from /repo and order-checked by kernel evaluation; differential correspondence of eval_expression",
+  "C06_value: for EVERY well-formed tree of any depth with a defined value, the code's algorithm (queue construction then queue evaluation, real precedence table) returns the conventional value; literals in 3 bases/either case read back (C06_literal); ~ semantics (C06_invert). Tie: Gen.operatorPrecedence + streams S3 (real lexer+parser+evaluator on rendered trees with random spacing vs model on the real token list, Spec.eval oracle, classification tie, seven program contexts, arbitrary token lists with exact exception class) + S0 (Python & | ~).",
+  "Scanner/parser classification of expression text is tied by stream (not yet by theorem); operators a context cannot lex are outside that context's claim; `/` has no evaluation rule and is rejected.")
+
 NOT_YET = {}
 
 def main():
